@@ -30,6 +30,7 @@ import (
 
 	"github.com/facebookincubator/dns/dnsrocks/db"
 	"github.com/facebookincubator/dns/dnsrocks/dnsserver/stats"
+	"github.com/facebookincubator/dns/dnsrocks/verifhook"
 )
 
 // CacheConfig has knobs to modify caching behaviour.
@@ -140,6 +141,7 @@ func NewFBDNSDB(handlerConfig HandlerConfig, dbConfig DBConfig, cacheConfig Cach
 	}
 	go func() {
 		for s := range tdb.ReloadChan {
+			verifhook.Yield("reloadloop.recv")
 			err := tdb.Reload(s)
 			if err != nil {
 				glog.Errorf("Failed to reload: %v", err)
@@ -207,6 +209,7 @@ func (h *FBDNSDB) PeriodicDBReload(reloadInt int) {
 		case <-h.done:
 			return
 		case <-ticker.C:
+			verifhook.Yield("periodic.tick")
 			h.ReloadChan <- *NewPartialReloadSignal()
 		}
 	}
@@ -331,6 +334,7 @@ func (h *FBDNSDB) Load() (err error) {
 func (h *FBDNSDB) Reload(s ReloadSignal) (err error) {
 	newPath := ""
 
+	verifhook.YieldLock("reload.lock", &h.reloadMu)
 	h.reloadMu.Lock()
 	defer h.reloadMu.Unlock()
 
@@ -346,6 +350,7 @@ func (h *FBDNSDB) Reload(s ReloadSignal) (err error) {
 
 	var newDB *db.DB
 	newDB, err = h.dnsdb.Reload(newPath, h.dbConfig.ValidationKey, h.dbConfig.ReloadTimeout)
+	verifhook.Yield("reload.returned")
 	if err != nil {
 		if errors.Is(err, db.ErrValidationKeyNotFound) {
 			h.stats.IncrementCounter("DNS_db.ErrValidationKeyNotFound")
@@ -359,11 +364,13 @@ func (h *FBDNSDB) Reload(s ReloadSignal) (err error) {
 	// if we didn't timeout and reloading finished without errors
 	h.dnsdb = newDB
 	h.dbConfig.Path = newPath
+	verifhook.Yield("reload.swapped")
 
 	if h.cacheConfig.Enabled && h.lru != nil {
 		h.lru.Purge()
 	}
 
+	verifhook.Yield("reload.purged")
 	if err := h.cleanupSignalFile(s); err != nil {
 		return err
 	}
@@ -376,6 +383,7 @@ func (h *FBDNSDB) Reload(s ReloadSignal) (err error) {
 // providing a consistent view on the DB during a query.
 // The Reader must be `Close`d when not needed anymore.
 func (h *FBDNSDB) AcquireReader() (db.Reader, error) {
+	verifhook.YieldRLock("acquire.rlock", &h.reloadMu)
 	h.reloadMu.RLock()
 	defer h.reloadMu.RUnlock()
 	return db.NewReader(h.dnsdb)
@@ -384,17 +392,21 @@ func (h *FBDNSDB) AcquireReader() (db.Reader, error) {
 // Close closes the database. It also takes care of closing the channel used
 // for periodic reloading.
 func (h *FBDNSDB) Close() {
+	verifhook.YieldLock("close.lock", &h.reloadMu)
 	h.reloadMu.Lock()
 	defer h.reloadMu.Unlock()
 	glog.Infof("Closing DB")
 	close(h.done)
+	verifhook.Yield("close.done")
 	close(h.ReloadChan)
+	verifhook.Yield("close.chan")
 	h.dnsdb.Destroy()
 }
 
 // ReportBackendStats refreshes backend statistics in server stats
 func (h *FBDNSDB) ReportBackendStats() {
 	// ReportBackendStats can be called the moment we reload
+	verifhook.YieldRLock("backendstats.rlock", &h.reloadMu)
 	h.reloadMu.RLock()
 	defer h.reloadMu.RUnlock()
 	for k, v := range h.dnsdb.GetStats() {
